@@ -43,7 +43,7 @@ SHARED = {
     "orig/foo/t.go": "package foo\n\ntype T struct{ A int }\n\ntype U struct{ B int }\n\ntype TA = T\n",
     "alt/bar/t.go": f'package bar\n\nimport "{MOD}/orig/foo"\n\ntype R struct{{ C int }}\n\ntype R2 struct{{ G int }}\n\n// RA is an alias: identical to the original type\ntype RA = foo.T\n',
     "third/legacy/h.go": f'package legacy\n\nimport "{MOD}/orig/foo"\n\n// H is an alias in a third package; it never has a replace-type entry of its own\ntype H = foo.T\n',
-    "alt2/foo/t.go": "package foo\n\ntype R struct{ D int }\n\ntype T struct{ E int }\n\ntype TA = T\n",
+    "alt2/foo/t.go": "package foo\n\ntype R struct{ D int }\n\ntype R2 struct{ H int }\n\ntype T struct{ E int }\n\ntype TA = T\n",
 }
 
 # probe template: per mock and method the rendered parameter / return type strings, and .Imports (path + qualifier)
@@ -230,7 +230,11 @@ class Case:
         return files
 
     # ---- configuration
-    def mapping(self):
+    def mapping(self, second=False):
+        """the replace-type entry of the case; second: the same source type mapped to the OTHER target"""
+        if second:
+            to = self.rec["to2"]
+            return {PKGS["orig"][0]: {self.rec["key"]["n"]: {"pkg-path": PKGS[to["p"]][0], "type-name": to["n"]}}}
         tp = self.target_pkg()[0]
         return {PKGS["orig"][0]: {self.rec["key"]["n"]: {"pkg-path": tp, "type-name": self.rec["to"]["n"]}}}
 
@@ -244,7 +248,7 @@ class Case:
             conf["require-template-schema-exists"] = False
         else:
             conf["template"] = self.templ
-        if self.templ == "matryer" and self.target != "alias":
+        if self.templ == "matryer" and (self.target != "alias" or self.level in ("entry2x", "entry2y", "iface2x", "iface2y")):
             # a replaced signature no longer implements the source interface: the documented switch for that.
             # (With an alias of the original type as replacement the ensure line stays on and must compile.)
             conf["template-data"] = {"skip-ensure": True}
@@ -262,6 +266,21 @@ class Case:
             if m:
                 e1["replace-type"] = m
             ifs["I1"] = {"configs": [{}, e1]}
+        elif self.level in ("entry2x", "entry2y"):
+            # two mocks of I1 in one file, the same source type mapped to different targets
+            m2 = self.mapping(second=True) if with_setting else None
+            first, second = (m, m2) if self.level == "entry2x" else (m2, m)
+            e0, e1 = {}, {"structname": "MockI1R"}
+            if with_setting:
+                e0["replace-type"] = first
+                e1["replace-type"] = second
+            ifs["I1"] = {"configs": [e0, e1]}
+        elif self.level in ("iface2x", "iface2y"):
+            # two interfaces in one file, the same source type mapped to different targets at interface level
+            m2 = self.mapping(second=True) if with_setting else None
+            first, second = (m, m2) if self.level == "iface2x" else (m2, m)
+            ifs["I1"] = {"config": ({"replace-type": first} if with_setting else {})}
+            ifs["I2"] = {"config": ({"replace-type": second} if with_setting else {})}
         # spelling: interfaces listed although they carry no setting of their own
         if self.listing in ("I1", "all"):
             ifs.setdefault("I1", {})
@@ -915,7 +934,7 @@ def run(ctx):
     t0 = time.time()
     # ---- 1. model checking over every case (while the binary and the driver are being built)
     with cf.ThreadPoolExecutor(max_workers=1) as ex:
-        f1 = ex.submit(ctx.tlc, "ReplaceTypeMC", "ReplaceType_all.cfg", workers=6, timeout=1800, coverage=thorough)
+        f1 = ex.submit(ctx.tlc, "ReplaceTypeMC", "ReplaceType_all.cfg" if thorough else "ReplaceType_quick.cfg", workers=6, timeout=1800, coverage=thorough)
         binp = ctx.mockery()
         drv = ctx.build_driver("replacesig")
         r1 = f1.result()
@@ -956,7 +975,7 @@ def run(ctx):
         small = [r for r in lrecs if len(r["writes"]) <= 2]
         big = [r for r in lrecs if len(r["writes"]) > 2]
         ctx.rng.shuffle(big)
-        pick = small + (big if thorough else big[:10])
+        pick = small + (big if thorough else big[:4])
         if ctx.replay:
             rp = json.loads(open(ctx.replay).read())["sig"]
             pick = [r for r in lrecs if ",".join(f"{lv}:{k}" for lv, k in sorted(tuple(w) for w in r["writes"])) == rp["writes"]
@@ -989,7 +1008,7 @@ def run(ctx):
         chosen = [tuple(rp["sig"][d] for d in DIMS)]
         uncovered = 0
     else:
-        n = 6000 if thorough else 320
+        n = 6000 if thorough else 280
         chosen, uncovered = select_cases(rows, obsdims, ctx.rng, n, 40 if thorough else 6)
         for d in unexpected_pred[:20]:
             chosen.append(tuple(d) + ("testify", "min", "gofmt"))
